@@ -42,6 +42,34 @@ def codes(ctx, rnd):
     return out
 
 
+def tuned_boundary_codes(ctx, rnd):
+    """Codes whose COMPRESSED stream size sits at the edge of the code area (stream + 8 header bytes =
+    0x3d00 - 1, 0x3d00, 0x3d00 + 4, ...) while the raw text is far too big: the fit rule must count the
+    header. One pass replicating the compressor's greedy loop (with picotool's own block finder) over a
+    compressible comment gives the stream size after every block; the text is cut where the size hits a target."""
+    from pico8.game import compress
+    table = set(compress.COMPRESSED_LUA_CHAR_TABLE[1:])
+    text = b'--' + bytes(rnd.choice(b'abcdef') for _ in range(64000))
+    area = 0x3d00
+    targets = {area - 8: 'fits-exactly', area - 4: 'over-by-4'} if ctx.quick else {
+        area - 9: 'fits-by-1', area - 8: 'fits-exactly', area - 7: 'over-by-1', area - 4: 'over-by-4', area - 1: 'over-by-7', area: 'over-by-8'}
+    found = {}
+    pos = out = 0
+    while pos < len(text) and len(found) < len(targets) and out <= area + 2:
+        bl, bo = compress._find_repeatable_block(text, pos)
+        if bl >= 3:
+            out += 2
+            pos += bl
+        else:
+            out += 1 if text[pos] in table else 2
+            pos += 1
+        if out in targets and out not in found:
+            found[out] = text[:pos]
+        elif out + 1 in targets and out + 1 not in found:
+            found[out + 1] = text[:pos] + b'!'       # one more literal (a lone last character cannot start a block)
+    return [('tuned-%s@%d' % (targets[k], k), v) for k, v in sorted(found.items())]
+
+
 def random_label(rnd, dirpath, k):
     rows = [bytes(rnd.randrange(256) for _ in range(W * 4)) for _ in range(H)]
     p = os.path.join(dirpath, 'label%d.png' % k)
@@ -101,6 +129,8 @@ def _mk(item):
     rec['area'] = list(bytes(area).rstrip(b'\x00'))
     # fit rule inputs on the ok path: what was stored is what fitted (the compressed size is the stored stream)
     rec['compLen'] = (len(rec['area']) - 8) if rec['area'][:4] == [58, 99, 58, 0] else 0x10000
+    if '@' in name and rec['area'][:4] == [58, 99, 58, 0]:
+        rec['compLen'] = int(name.split('@')[1])       # stream size known from the tuning pass (the area read from the pixels is cut at 0x3d00)
     if rec['area'][:3] == [58, 99, 58] and len(rec['area']) < 8:
         rec['area'] = list(area[:8])
     try:
@@ -119,9 +149,11 @@ def run(ctx):
     ctx.assumptions = ['TracePng.tla states the .p8.png layout, channel packing and code-area formats; PNG container validity is decided by refpng.py (stdlib zlib)',
                        'the fit rule uses the implementation\'s own compressed size; versions 0..255; code without NUL bytes']
     items = []
-    for k, (name, code) in enumerate(codes(ctx, rnd)):
+    all_codes = codes(ctx, rnd) + tuned_boundary_codes(ctx, rnd)
+    ctx.notes['tuned_boundary_codes'] = [n for n, _ in all_codes if n.startswith('tuned')]
+    for k, (name, code) in enumerate(all_codes):
         for dest in (False, True):
-            if ctx.quick and dest and k % 2:
+            if ctx.quick and dest and (k % 2 or name.startswith('tuned')):
                 continue
             pat = (rnd.randrange(256), rnd.randrange(256))
             ov = cartio.sparse_overrides(rnd, 40)
